@@ -84,4 +84,9 @@ CHECKS = {
   "note": "trace bound 25 x base resend timeout + 15 s; liveness model-checked for small windows/message counts; with keepalive on a closure during the fault prefix counts as visible failure",
   "technique": "TLA+ liveness and timed model checking (TLC) + trace validation by a timed observer specification",
  },
+ "C18": {
+  "text": "Ticker.tla models every statement of IntervalAwareForceTicker's reset/stop for three concurrent clients (send loop, receive loop, Close); TLC checks NoDoubleClose, MutualExclusion of the unsynchronised fields, OneGoroutine and that no client waits forever; real keepalive connections whose ping ticks coincide with packet arrivals run with Send, the timeout setters and Close called from several goroutines, and the ticker and timeout manager are stressed directly as the connection's goroutines use them, all in a race-detector build; the ticker hooks (reported from inside the reset/stop sections) are validated against the specification (no overlapping sections, nothing after a stop).",
+  "note": "Go-memory-model data races are observed by the race detector during the validated runs (a report is a violation); TLC decides the section-overlap/double-close part; interleavings are sampled by the scheduler",
+  "technique": "TLA+ model checking (TLC) of the ticker protocol + trace validation of ticker sections + Go race detector as observer",
+ },
 }
